@@ -1,23 +1,26 @@
 #!/usr/bin/env python3
-"""Re-run the detection of every kept seeded change against the current /repo HEAD and the current checks (sequentially: the Lean build directory is shared).
-Prints one line per seed and writes seeded/SUMMARY.json."""
+"""Re-run the detection of every kept seeded change against the current /repo HEAD and the current checks (PGV_JOBS at a time, default 6: every detection
+uses a private copy of the Lean project).  Prints one line per seed and writes seeded/SUMMARY.json."""
 import json
 import subprocess
 import sys
 from pathlib import Path
 
 VERIF = Path(__file__).resolve().parents[2]
+import os
+from concurrent.futures import ThreadPoolExecutor
+
 out = {}
 only = sys.argv[1:]
-for d in sorted((VERIF / "seeded").iterdir()):
-    if not (d / "patch.diff").exists() or (only and d.name not in only):
-        continue
+
+
+def one(d):
     pid = d.name.split("-")[0]
     rc = subprocess.run(["git", "-C", "/repo", "apply", "--check", str(d / "patch.diff")], capture_output=True, text=True)
     if rc.returncode:
         out[d.name] = {"applies": False, "error": rc.stderr[-300:]}
         print(d.name, "DOES NOT APPLY", flush=True)
-        continue
+        return
     p = subprocess.run([sys.executable, str(VERIF / "harness/selftest/seedcheck.py"), "detect", str(d), pid], capture_output=True, text=True)
     try:
         det = json.loads(p.stdout)
@@ -27,5 +30,9 @@ for d in sorted((VERIF / "seeded").iterdir()):
     except Exception as e:  # noqa
         out[d.name] = {"applies": True, "error": (p.stdout + p.stderr)[-400:]}
         print(d.name, "ERROR", repr(e), flush=True)
+dirs = [d for d in sorted((VERIF / "seeded").iterdir()) if (d / "patch.diff").exists() and (not only or d.name in only)]
+with ThreadPoolExecutor(int(os.environ.get("PGV_JOBS", "6"))) as ex:
+    list(ex.map(one, dirs))
+out = dict(sorted(out.items()))
 if not only:
     (VERIF / "seeded" / "SUMMARY.json").write_text(json.dumps(out, indent=1, default=str))
